@@ -254,6 +254,9 @@ class NodePathParser(object):
             raise PathExprParsingError('empty ID at position {}'.format(self.pos))
 
         token, self.current_token = self.current_token, ''
+        # A descriptor ID consists of letters and digits only, e.g. 001001, A21062
+        if not token.isalnum():
+            raise PathExprParsingError('invalid ID: {!r} at position {}'.format(token, self.pos))
         return token
 
     def create_slice_object(self):
